@@ -40,10 +40,15 @@ func guardSignature(p *core.Prog, cl *ssa.Function) []string {
 	var out []string
 	for _, fn := range p.Helpers(cl) {
 		for _, ret := range core.Returns(fn) {
-			if len(ret.Results) != 1 {
-				continue
+			// the sentinel: the single result, or the error result of a helper that also returns data
+			g, ok := "", false
+			for _, rv := range ret.Results {
+				if len(ret.Results) == 1 || types.TypeString(rv.Type(), nil) == "error" {
+					if g2, ok2 := loadedGlobal(unspill(rv)); ok2 {
+						g, ok = g2, true
+					}
+				}
 			}
-			g, ok := loadedGlobal(unspill(ret.Results[0]))
 			if !ok {
 				continue
 			}
@@ -163,6 +168,31 @@ func condShape(e edgeCond) string {
 		if g, ok := loadedGlobal(v); ok {
 			return g
 		}
+		// the default bytes handed to a loading helper as its fall-back parameter
+		if prm, ok := v.(*ssa.Parameter); ok && isByteSlice(prm.Type()) && c20Prog != nil && c20Prog.IsPrivateHelper(prm.Parent()) {
+			// (some handlers substitute a literal for a missing default - add starts from [] - so it is
+			// enough that the parameter stands for the default field at some call site: the label names
+			// the role of the tested value)
+			pi, some := -1, false
+			for i, q := range prm.Parent().Params {
+				if q == prm {
+					pi = i
+				}
+			}
+			for _, cs := range c20Prog.CallersOf(prm.Parent()) {
+				if pi < 0 || pi >= len(cs.Common().Args) {
+					continue
+				}
+				for _, lf := range valueLeaves(cs.Common().Args[pi], nil, 0) {
+					if _, isF := core.LoadedField(lf.V); isF {
+						some = true
+					}
+				}
+			}
+			if some {
+				return "default"
+			}
+		}
 		if ex, ok := v.(*ssa.Extract); ok {
 			if c, ok := ex.Tuple.(*ssa.Call); ok {
 				if cal := c.Common().StaticCallee(); cal != nil && strings.HasSuffix(cal.String(), "badger.Txn).Get") {
@@ -238,8 +268,12 @@ func condShape(e edgeCond) string {
 	return side(x) + op + side(y)
 }
 
+// c20Prog gives the shape renderers access to the call index (set by c20).
+var c20Prog *core.Prog
+
 func c20(r *core.Run) {
 	p := r.P
+	c20Prog = p
 	r.Explanation = "Structural obligations on the two copies of the deprecated BadgerDB middleware: every database write happens on the transaction of one DB.Update closure together with the read of the same key (read-modify-write in one transaction); the guards that make an event inapplicable (index beyond the collection for add / at-or-beyond for remove, create on an existing or defaulted resource, change/remove on a missing resource without default) return their sentinel before the write and have the documented comparison operator; the two copies agree guard-for-guard; the change handler decides 'property absent' by the map's presence flag and records as old value either the looked-up value or the delete action; the delete handler returns what it read in the same transaction before deleting. That an event whose apply fails publishes nothing is C08.O3. Fold-equivalence over histories and reopen are not decided."
 	r.NotDecided = []string{"equality of the served value with the fold of all applied events (needs evaluation)", "reopen / durability (BadgerDB)"}
 	r.Assumptions = []string{"DB.Update runs the closure in one atomic transaction"}
@@ -248,7 +282,7 @@ func c20(r *core.Run) {
 	r.Rule("G1", "guards: add rejects len<idx, remove rejects len<=idx, create rejects an existing or defaulted resource, change and remove reject a missing resource without default - each by returning its sentinel from the closure on an edge that does not reach the write", 10)
 	r.Rule("S1", "sibling agreement: the two middleware copies have the same guard -> sentinel sets in each of the five apply handlers", 5)
 	r.Rule("I1", "default stays immutable: the handler's default bytes (served for every resource that is not stored yet) are never a destination: the buffer handed to Item.ValueCopy is nil or freshly made, never (a variable that may hold) the default field, and no element of the default field is stored to", 2)
-	r.Rule("I2", "written bytes are owned until commit: the value handed to Txn.Set is never backed by an object taken from a sync.Pool (followed through re-slicing, conversions, bytes.* helpers and Buffer.Bytes): the transaction commits after the update closure - and its deferred Put - has returned", 5)
+	r.Rule("I2", "written bytes are owned until commit: the value handed to Txn.Set is never backed by an object taken from a sync.Pool (followed through re-slicing, conversions, bytes.* helpers and Buffer.Bytes): the transaction commits after the update closure - and its deferred Put - has returned", 2)
 	r.Rule("D1", "old values: the change handler treats a property as absent only on the not-present edge of a comma-ok lookup on the stored model and records the looked-up value or the delete action as old value; the delete handler returns the bytes read in the same transaction before the delete", 6)
 
 	want := map[string][]string{
